@@ -501,6 +501,8 @@ def value_queries(M, F, l, i, f):
   if isinstance(v, (gfapy.CIGAR, gfapy.Trace, gfapy.AlignmentPlaceholder)):
     tn = type(v).__name__
     for op in ALN_OPS:
+      if op == ["list"] and isinstance(v, gfapy.Placeholder):
+        continue  # iterating a Placeholder never terminates (C07's domain)
       add("{}{}.{}".format(F, tn, opname(op)), V, op)
     if isinstance(v, gfapy.CIGAR):
       for j in range(len(v)):
@@ -527,6 +529,8 @@ def value_queries(M, F, l, i, f):
       elif isinstance(e, (gfapy.CIGAR, gfapy.Trace,
                           gfapy.AlignmentPlaceholder)):
         for op in ALN_OPS:
+          if op == ["list"] and isinstance(e, gfapy.Placeholder):
+            continue
           add("{}[].{}.{}".format(F, type(e).__name__, opname(op)), I, op)
   elif isinstance(v, dict):
     for op in JSON_OPS:
@@ -608,18 +612,23 @@ def outcome_class(q, r):
   return "{}:ok".format(q["op"][0])
 
 
+def rq(g, tab, q):
+  """run_query under a per-call time budget (bounded stand-in for
+  termination; a query that exceeds it is reported, C07 owns the cause)."""
+  try:
+    with guard(5):
+      r = run_query(g, tab, q)
+  except HarnessTimeout:
+    r = None
+  if r is None or timed_out():
+    return ["timeout"], None, None
+  return r
+
+
 def check_state(item):
   res = new_result()
   res["evaluations"] += 1
-  try:
-    with guard(120):
-      _check_state(item, res)
-  except HarnessTimeout:
-    pass
-  if timed_out():
-    res["violations"].append(mkviolation(
-        "timeout", {"state": json.dumps(item)[:200]}, {"state": item},
-        "terminates", "time budget of 120 s per state exceeded", ""))
+  _check_state(item, res)
   return res
 
 
@@ -649,13 +658,17 @@ def _check_state(item, res, only=None):
   for qi, (grp, q) in enumerate(M):
     if run.nviol >= MAX_VIOL_PER_STATE:
       break
-    r1, a0, a1 = run_query(g, tab, q)
-    r2, b0, b1 = run_query(g, tab, q)
+    r1, a0, a1 = rq(g, tab, q)
+    r2, b0, b1 = rq(g, tab, q)
     res["transitions"] += 2
     res["outcomes"].add(outcome_class(q, r1))
     rseq[qi] = r1
     if a0 != a1 or b0 != b1:
       run.violation("argument", grp, [q], a0, a1 if a0 != a1 else b1)
+    if r1 == ["timeout"] or r2 == ["timeout"]:
+      run.violation("timeout", grp, [q], "returns within 5 s", "no answer")
+      g, tab = run.fresh()
+      continue
     if r1 != r2:
       run.violation("twice", grp, [q, q], r1, r2)
     o1 = deep_obs(g)
@@ -678,7 +691,7 @@ def _check_state(item, res, only=None):
   r0 = {}
   for qi in red:
     gq, tabq = run.fresh()
-    r0[qi] = run_query(gq, tabq, M[qi][1])[0]
+    r0[qi] = rq(gq, tabq, M[qi][1])[0]
     res["transitions"] += 1
     res["traces"] += 1
     if r0[qi] != rseq.get(qi) and run.nviol < MAX_VIOL_PER_STATE:
@@ -686,8 +699,8 @@ def _check_state(item, res, only=None):
       culprit = None
       for pj in range(qi):
         gp, tabp = run.fresh()
-        run_query(gp, tabp, M[pj][1])
-        if run_query(gp, tabp, M[qi][1])[0] != r0[qi]:
+        rq(gp, tabp, M[pj][1])
+        if rq(gp, tabp, M[qi][1])[0] != r0[qi]:
           culprit = pj
           break
       if culprit is not None:
@@ -700,15 +713,15 @@ def _check_state(item, res, only=None):
     if run.nviol >= MAX_VIOL_PER_STATE:
       break
     g1, tab1 = run.fresh()
-    run_query(g1, tab1, M[q1][1])
+    rq(g1, tab1, M[q1][1])
     for q2 in red:
-      r = run_query(g1, tab1, M[q2][1])[0]
+      r = rq(g1, tab1, M[q2][1])[0]
       res["transitions"] += 1
       res["traces"] += 1
       if r != r0[q2]:
         gp, tabp = run.fresh()
-        run_query(gp, tabp, M[q1][1])
-        rp = run_query(gp, tabp, M[q2][1])[0]
+        rq(gp, tabp, M[q1][1])
+        rp = rq(gp, tabp, M[q2][1])[0]
         if rp != r0[q2]:
           run.violation("pair", "{} ; {}".format(M[q1][0], M[q2][0]),
                         [M[q1][1], M[q2][1]], r0[q2], rp)
@@ -807,9 +820,10 @@ def check_values(chunk):
   res = new_result()
   for vd in chunk:
     res["evaluations"] += 1
-    ops = VALUE_OPS[vd[0]]
     mk = lambda: purity.build_arg(vd, None, None)
     v = mk()
+    ops = [op for op in VALUE_OPS[vd[0]]
+           if not (op == ["list"] and isinstance(v, gfapy.Placeholder))]
     o0 = vobs(v)
     res["states"].add(h(o0))
     res["nontrivial"].add(h(o0))
@@ -933,7 +947,6 @@ def replay(w, ctx):
     return [v for v in res["violations"]
             if v["witness"]["ops"] == w["ops"] and v["clause"] == w["clause"]]
   res = new_result()
-  with guard(300):
-    _check_state(w["state"], res)
+  _check_state(w["state"], res)
   return [v for v in res["violations"]
           if v["clause"] == w["clause"] and v["witness"]["group"] == w["group"]]
